@@ -1003,6 +1003,12 @@ func getUsedVariablesInExpr(expr ast.Expr, used map[string]bool) {
 
 // isExprInvariant checks if an expression is loop-invariant (doesn't depend on modified vars)
 func isExprInvariant(expr ast.Expr, modifiedVars map[string]bool) bool {
+	// Only plain computations may be moved: a call, await, match, lambda ...
+	// may have effects (it must run once per iteration, not once), and
+	// getUsedVariables does not see into every expression kind.
+	if !isHoistableExpr(expr) {
+		return false
+	}
 	usedVars := getUsedVariables(expr)
 	for varName := range usedVars {
 		if modifiedVars[varName] {
@@ -1010,6 +1016,21 @@ func isExprInvariant(expr ast.Expr, modifiedVars map[string]bool) bool {
 		}
 	}
 	return true
+}
+
+// isHoistableExpr reports whether expr consists only of literals, variables and
+// unary/binary operators over such operands. Every other kind is refused.
+func isHoistableExpr(expr ast.Expr) bool {
+	switch e := expr.(type) {
+	case *ast.LiteralExpr, ast.LiteralExpr, *ast.VariableExpr, ast.VariableExpr:
+		return true
+	case *ast.BinaryOpExpr:
+		return isHoistableExpr(e.Left) && isHoistableExpr(e.Right)
+	case *ast.UnaryOpExpr:
+		return isHoistableExpr(e.Right)
+	default:
+		return false
+	}
 }
 
 // ========================================
